@@ -890,6 +890,30 @@ func ruleC19CType(r *Run) {
 			}
 		}
 		r.Check(rule, FuncName(f), f.Pos(), ok, fmt.Sprintf("content type passed to Blob: %q (documented: httpctype.%s = %q)", got, t.constName, want))
+		// ... and the body is the helper's own argument, converted at most: not a formatted / rewritten version of it
+		okBody := false
+		what := "?"
+		for _, c := range callsToFn(f, blob) {
+			d := c.Common().Args[3]
+			for {
+				if cv, isCv := d.(*ssa.Convert); isCv {
+					d = cv.X
+					continue
+				}
+				if ct, isCT := d.(*ssa.ChangeType); isCT {
+					d = ct.X
+					continue
+				}
+				break
+			}
+			what = shortCanon(canon(d))
+			for _, prm := range f.Params[1:] {
+				if d == ssa.Value(prm) {
+					okBody = true
+				}
+			}
+		}
+		r.Check(rule, FuncName(f)+":body is the argument", f.Pos(), okBody, map[bool]string{true: "the bytes handed to Blob are the helper's own argument (converted at most)", false: "the body handed to Blob is not the helper's argument itself (" + what + "): a text that is formatted or rewritten on the way (fmt.Sprintf with the text as format, escaping, trimming) does not come out as it was given"}[okBody])
 	}
 	// Blob: header set from the parameter under the Content-Type key
 	okBlob := false
